@@ -29,6 +29,8 @@ CHECKS = {
          'bounded exhaustive enumeration of (n, m, item kind, parser, k) against an arithmetic oracle'),
  'C14': ('exploration', '4 C14', 'A menu of 15 LALR grammars x lexer x str/bytes x every text up to the bound x every window: list(scan()) must equal the leftmost-longest match list computed by brute force (reference lexer for the token boundaries of the full text, real parse() on every candidate window), each value equal to parse(TextSlice(text,s,e)) with positions and meta.',
          'bounded exhaustive enumeration of (grammar, text, window) against a brute-force leftmost-longest oracle'),
+ 'C13': ('model_checking', '4 C13', 'Explicit-state breadth-first search over fork trees of the real interactive parser (feed of every terminal legal or not, copy, copy.copy, as_immutable, as_mutable, immutable feed, accepts, feed_eof; <= 3 live handles; alias-preserving heap fingerprints) on 10 grammars x 4 option sets: every handle, finished results included, must equal a fresh parser fed its own history, accepts() must be exact, feed+eof must equal parse(text); a deep narrow mode (depth 8) and a text-attached part (resume_parse / exhaust_lexer on forks, lexer positions observed).',
+         'explicit-state search over operation histories on live objects with a fresh-replay reference'),
 }
 NOT_YET = {}
 def main():
